@@ -41,4 +41,5 @@ for tc in ET.parse(f'/var/tmp/suite/seed-{tag}.xml').getroot().iter('testcase'):
         passed.add(f"{tc.get('classname')}::{tc.get('name')}")
 print(f"suite with patch: baseline {len(base)} passed {len(base & passed)} missing {sorted(base-passed)[:5]}")
 PY
+  rm -f /var/tmp/suite/seed-$NAME.xml /var/tmp/suite/seed-$NAME.log
 fi
